@@ -38,34 +38,6 @@ func vGenOpts() *GenOpts {
 	return o
 }
 
-func init() { vRegister("VerifProbeModel", VerifProbeModel) }
-
-func VerifProbeModel() {
-	sw := &spec.Swagger{}
-	sw.Swagger = "2.0"
-	sw.Paths = &spec.Paths{}
-	addr := spec.Schema{}
-	addr.Type = spec.StringOrArray{"object"}
-	zip := spec.Schema{}
-	zip.Type = spec.StringOrArray{"string"}
-	ml := int64(5)
-	zip.MaxLength = &ml
-	addr.Properties = map[string]spec.Schema{"zip": zip}
-	alias := *spec.RefSchema("#/definitions/Address")
-	user := spec.Schema{}
-	user.Type = spec.StringOrArray{"object"}
-	user.Properties = map[string]spec.Schema{"home": *spec.RefSchema("#/definitions/Alias")}
-	sw.Definitions = spec.Definitions{"Address": addr, "Alias": alias, "User": user}
-	doc := vDocument(sw)
-	gd, err := makeGenDefinition("User", "models", user, doc, vGenOpts())
-	vAssert(err == nil, "makeGenDefinition failed")
-	vCover("planned")
-	vObserve("hasValidations", gd.GenSchema.HasValidations)
-	vObserve("nprops", len(gd.GenSchema.Properties))
-	vObserve("homeHasValidations", gd.GenSchema.Properties[0].HasValidations)
-	vObserve("gotype", gd.GenSchema.Properties[0].GoType)
-}
-
 func vRepoDir() string {
 	if d := os.Getenv("VERIF_REPO"); d != "" {
 		return d + "/generator"
